@@ -9,3 +9,4 @@ open Just.Props.C13
 #print axioms sigterm_forwarded
 #print axioms unrecorded_signal_is_forgotten
 #print axioms recorded_signal_stops
+#print axioms signals_match_source
